@@ -509,6 +509,48 @@ async def _interleave_run(shape, size, batch_after):
     return data, big
 
 
+async def _slow_child_run(stall, big):
+    class StallingStdin(type(FakeProcess().stdin)):
+        async def send(self, data):
+            await super().send(data)       # the bytes are in the pipe / transport buffer ...
+            await anyio.sleep(stall)       # ... and the flush takes this long: the child is not reading at the moment
+
+    proc = FakeProcess()
+    proc.stdin = StallingStdin()
+    msgs = [{"jsonrpc": "2.0", "id": i, "method": "m", "params": {"blob": "x" * (big if i == 1 else 3)}} for i in (1, 2, 3)]
+    with patched_open_process(proc):
+        client = new_client()
+        async with client:
+            _r, w = client.get_streams()
+            for m in msgs:
+                await send_or_giveup(w, m)
+            await anyio.sleep(stall * 8 + 5)
+            data = proc.stdin.data()
+            proc.stdout.close()
+    return data, msgs
+
+
+def check_slow_child(ctx, only=None):
+    """A child that does not read its stdin for a while (it is busy): each write takes 0.5-20 s to flush.  Still exactly one
+    line per message, in order (virtual clock)."""
+    from vloop import vrun
+    for stall, big in ([only] if only else [(0.5, 10), (7.0, 200_000), (20.0, 200_000), (7.0, 10)]):
+        data, msgs = vrun(_slow_child_run, stall, big)
+        case = {"each_write_takes_s": stall, "first_message_bytes": big}
+        ctx.case(case, nontrivial=True)
+        ctx.count("slow-child")
+        ctx.spec_total += 1
+        lines = data.split(b"\n")
+        ids = []
+        for ln in lines[:-1]:
+            try:
+                ids.append(json.loads(ln).get("id"))
+            except Exception:                                  # noqa: BLE001
+                ids.append("<not json>")
+        if ids != [1, 2, 3] or lines[-1] != b"":
+            ctx.spec_violation("slow-child:not-one-line-per-message", case, f"3 messages sent, ids of the lines the child got: {ids}")
+
+
 def check_interleaving(ctx):
     for shape in ("dict", "str", "typed"):
         for size in (10, 70_000, 300_000):
@@ -544,6 +586,7 @@ def check_interleaving(ctx):
 
 def explore(ctx, drv):
     check_interleaving(ctx)
+    check_slow_child(ctx)
     policy = anyio.run(_probe_policy)
     ctx.extra["raw_string_policy_of_tree_under_test"] = "Verbatim (as before the fix)" if policy == 0 else "Recompact (as /repo HEAD)"
     ctx.extra["tree_under_test"] = lib.REPO
@@ -644,6 +687,11 @@ def replay(ctx, data):
         print("replay supports (messages, close) cases")
         return 0
     descs, close = case["messages"], bool(case.get("close"))
+    if "each_write_takes_s" in case:
+        check_slow_child(ctx, only=(case["each_write_takes_s"], case["first_message_bytes"]))
+        for f in ctx.spec_fail:
+            print("REPRODUCED", json.dumps(f)[:800])
+        return 1 if ctx.spec_fail else 0
     if "child_closes_its_stdout_after" in case:
         check_stdout_eof(ctx, [(descs, False)])
         for f in ctx.spec_fail:
